@@ -279,6 +279,12 @@ def run(F, R):
             from .. import optnorm
             pg = optnorm.option_desc(W, fv, agg[0][3][names.index("ping")])
             R.check("C09-R4", "wire-ping", pg == "None|Some{Ping{param1.app.user_counting@ClientRegulatedByDate.0, param1.app.user_counting@ClientRegulatedByDate.0}}", pg, "ping dates are %s, expected ad = rd = user_counting day" % pg)
+    # a present field is written whatever its content (an empty cohort the server assigned is still sent and stored); absent fields are left out
+    from .. import schema as _schema
+    cs = _schema.ser_schema(W, c, "protocol::Cohort")
+    got_c = [[it.get("key"), it.get("skip_if")] for it in (cs or {}).get("items", [])]
+    R.check("C09-R4", "cohort-fields-serialised-when-present", got_c == [["cohort", "None"], ["cohorthint", "None"], ["cohortname", "None"]], str(got_c),
+            "Cohort (request wire format and persisted record) serialises as %s: a field is dropped although it is set" % got_c)
     pf = [b for b in lib.bodies(c, item="from", impl_self="common::PersistedApp", impl_trait="std::convert::From")]
     if R.floor("C09-R4", "From<&App> for PersistedApp", len(pf), 1):
         s_ = terms.render(BV.of(pf[0]), BV.of(pf[0]).trace_local(0), W, {})
